@@ -55,7 +55,10 @@ def make_pairs(tier, rng):
     for cyc in (False, True):
         for prog, prov, tag in gen.enum_gated(cyclic=cyc, stride=stride, offset=rng.randrange(stride)):
             for mode in (("sync", "async") if thorough else (rng.choice(["sync", "async"]),)):
-                pairs.append((gen.job(0, prog, prov, mode=mode), ("cyc/" if cyc else "dag/") + tag))
+                p2 = prog
+                if rng.random() < 0.5:      # node names that contain one another (decisions are compared by name)
+                    p2 = gen.rename_nodes(prog, {"A": "step", "B": "step_b", "C": "b"})
+                pairs.append((gen.job(0, p2, prov, mode=mode), ("cyc/" if cyc else "dag/") + tag))
     n_rand = 4000 if thorough else 700
     tries = 0
     while n_rand > 0 and tries < 60000:
